@@ -684,5 +684,6 @@ fn main() {
             eprintln!("LOG total {}", r.log.len());
         }
         let _ = HashMap::<u8, u8>::new();
+        vp_circ::catalogue_sweep!(p, "catalogue.sweep", vp_circ::ops_ecc::visit_ops, p.tier.pick(2, 1), p.tier.pick(300, 100_000), 16);
     });
 }
